@@ -6,14 +6,15 @@ PROP = {'streams': [('c05', 4000, 250000)],
          'and i64-boundary forms in every operand position, reserved words / non-identifiers as attribute names and record keys, escape-heavy '
          'strings, entity ids, patterns and annotation values, ASTs built from arbitrary Unicode strings, policies/templates (all scope forms, '
          'slots, annotations, 0-3 when/unless clauses) and policy sets of 5; each accepted text: print, reparse, eq_shape/==, evaluate on random '
-         'worlds, both printers (AST Display, EST Display) for policies, sets as multisets modulo ids; policy-level model lines: Parse_model(lex t) = parse_impl t as a whole policy/template AST (annotations, effect, scope constraints, folded when/unless condition; accepts and rejects) for generated policy texts AND for t = Display(policy), Print_model(policy) ~ lex(Display(policy)) token for token; expression-level model lines: Parse_model(lex t) = parse_impl '
+         'worlds, both printers (AST Display, EST Display) for policies, sets as multisets modulo ids; lexer lines: lex_model(t) = harness tokenizer(t) token for token (or both report a lexical error) and parsePolicy_model(lex_model(t)) = parse_impl(t) on the raw text, for every generated policy text, every Display output, and 2 noisy re-renderings of each text (token separators drawn from: none, blanks incl. NBSP/EM SPACE/IDEOGRAPHIC SPACE/VT/FF/NEL, CR LF, // comments with quotes and backslashes inside; spliced odd pieces 007 1a ?principalx <== ::: and malformed pieces: unterminated string, backslash-newline in a string, lone ? & | # apostrophe backtick BOM ZWSP); policy-level model lines: Parse_model(lex t) = parse_impl t as a whole policy/template AST (annotations, effect, scope constraints, folded when/unless condition; accepts and rejects) for generated policy texts AND for t = Display(policy), Print_model(policy) ~ lex(Display(policy)) token for token; expression-level model lines: Parse_model(lex t) = parse_impl '
          't (accept and reject), Print_model e ~ lex(print_impl e), parse_impl(render(Print_model e)) = e via the driver sub-process, unescape_model '
          '= to_unescaped_string / like-pattern; non-trivial = accepted expression with >= 3 sub-expressions or an accepted policy (distinct by '
          'canonical AST) or a distinct raw literal',
- 'theorems': ['policy_parse_print', 'annotation_round_trip', 'policy_round_trip_text', 'unescape_escape', 'unescape_escape_pattern', 'parse_print_full', 'parse_image', 'parse_print_parse', 'round_trip_meaning', 'round_trip_meaning_text', 'parse_print_partial3',
+ 'theorems': ['policy_parse_print', 'policy_parse_image', 'policy_round_trip_text_full', 'policy_round_trip_chars', 'lex_print', 'lex_tokWF', 'annotation_round_trip', 'policy_round_trip_text', 'unescape_escape', 'unescape_escape_pattern', 'parse_print_full', 'parse_image', 'parse_print_parse', 'round_trip_meaning', 'round_trip_meaning_text', 'parse_print_partial3',
               'parse_print_partial', 'inFrag3_parserImage', 'parserImage_inFrag3', 'inFrag2_inFrag3'],
- 'assumptions': ['PolicyParseImage (the model policy parser only returns PolicyImage objects) is stated, not proved; multi-clause when/unless forms enter the theorems through their folded image, the fold itself is checked by the polparse lines',
-                 'the harness tokenizer (token classes of grammar.lalrpop) is trusted',
+ 'assumptions': ['the model lexer is tied to the LALRPOP-generated lexer by the (lexpolparse id text) lines (model lex + model parser vs the real parse_policy_or_template on the raw text, no harness tokenizer in between) and to the harness tokenizer by the (lex text) lines; the real lexer\'s token stream itself is not reachable through the public API',
+                 'lex_print is stated for single-space rendering and TokOK tokens; that the model printers only emit TokOK tokens is not proved (Display\'s own spacing is covered by the lex / lexpolparse lines on Display output)',
+                 'the harness tokenizer (token classes of grammar.lalrpop) is still used for the (parse …)/(polparse …)/(print-check …) lines; it is now itself cross-checked against the model lexer',
                  "escape_debug's Unicode tables are not modelled: the theorems quantify over an arbitrary mustEscape predicate",
                  'the LALRPOP-generated tables are tied to the model parser by the (parse ...) correspondence lines, accepts and rejects']}
 
@@ -23,11 +24,11 @@ TEXT = ('Lean theorems over a token-level model of the printer (mirror of est/ex
  'uids, slots, member access, like, is, method and extension calls, sets, records, all operators and unparenthesised chains); parse_image: on '
  'well-formed tokens the parser only returns ASTs of that image; parse_print_parse: every accepted token list re-parses to the same AST after '
  'printing (includes a proof of intercalate/splitOn inverse laws for the legacy byte-position String.splitOn); the policy-level statement '
- 'policy_parse_print: parsePolicy(printPolicy p) = p for EVERY policy/template in the parser image (annotations with arbitrary values, effect, all scope-constraint forms incl. '
+ 'policy_parse_image: the model policy parser only returns objects of the policy image (so policy_round_trip_text_full needs no image hypothesis: any accepted token list, incl. several when/unless clauses, re-parses to the same object after printing); lex_print: the model lexer (mirror of the grammar.lalrpop match block) inverts single-space rendering on every list of lexer-producible tokens; policy_parse_print: parsePolicy(printPolicy p) = p for EVERY policy/template in the parser image (annotations with arbitrary values, effect, all scope-constraint forms incl. '
  'slots and is..in, action ==/in [..], no or one folded condition without slots), model = token-level mirror of Display for TemplateBody and of grammar Policy/Annotation/VariableDef/Cond '
  'composed with cst_to_ast (to_policy_template, to_ref_or_refs, construct_template_policy). '
  'Tied to the code by cross-composition runs '
  "(model parser on the real printer's output and on arbitrary generated texts incl. rejects, real parser on the model printer's output) and the "
  'statement itself checked on the implementation for expressions, policies, templates and policy sets with evaluation on random requests.',
- 'proof over a hand-written model (expression level and policy/template level complete for print-then-parse; soundness of the policy image predicate, the lexer, policy sets and the EST printer are covered by runs only); correspondence sampled + an exhaustive operator-pair grid; the harness '
- 'tokenizer is trusted')
+ 'proof over a hand-written model (expression level and policy/template level complete for print-then-parse; policy image soundness proved; lexer modelled with lex(render ts) = ts proved for single-space rendering; Display spacing, policy sets and the EST printer are covered by runs only); correspondence sampled + an exhaustive operator-pair grid; the harness '
+ 'tokenizer is cross-checked against the model lexer, the model lexer + parser against the real parser on raw text')
